@@ -890,9 +890,9 @@ fn main() {
         if st.projection_checked > 0 && c.whiten {
             c_whiten.fetch_add(1, Ordering::Relaxed);
         }
-        fmax(&m_orth, st.max_orth);
-        fmax(&m_whiten, st.max_whiten);
         if !st.solver_violation {
+            fmax(&m_orth, st.max_orth);
+            fmax(&m_whiten, st.max_whiten);
             fmax(&m_align, st.max_align);
             fmax(&m_wtol, st.max_align_widened_tol);
             fmax(&m_var, st.max_var_rel);
@@ -929,8 +929,8 @@ fn main() {
     ctx.extra(
         "measured_maxima",
         json!({
-            "orthonormality_error_all_fits": fget(&m_orth),
-            "whitened_covariance_error_all_whitened_fits": fget(&m_whiten),
+            "orthonormality_error_of_fits_without_axes_violation": fget(&m_orth),
+            "whitened_covariance_error_of_fits_without_axes_violation": fget(&m_whiten),
             "alignment_sin_angle_of_fits_without_axes_violation": fget(&m_align),
             "largest_alignment_tolerance_granted": fget(&m_wtol),
             "variance_error_rel_lambda1_of_fits_without_axes_violation": fget(&m_var),
